@@ -1,4 +1,4 @@
-import MesaModel.Proofs.AgentSet
+import MesaModel.Proofs.AgentSetHist
 /-!
 # C03 — AgentSet behaves as an ordered set and its queries match list semantics
 
@@ -78,6 +78,150 @@ theorem C03_constructor_is_ordered_set {α : Type} [DecidableEq α] (l : List α
     (dedup l).Nodup ∧ (∀ x, x ∈ dedup l ↔ x ∈ l) ∧ (l.Nodup → dedup l = l) :=
   ⟨nodup_dedup l, fun _ => mem_dedup, dedup_of_nodup⟩
 
+/-! ## the operators and methods inherited from `collections.abc` (`Set`, `MutableSet`, `Sequence`) -/
+
+/-- `a | b`, `a & b`, `a - b`, `a ^ b` (`b` an AgentSet or any iterable of agents, duplicates allowed) are the
+    set operations — exactly the right members, nobody twice — and their order is fixed: the union lists `a`
+    first and then the new members of `b` in `b`'s order; the difference keeps `a`'s order; the symmetric
+    difference lists what only `a` has, then what only `b` has; the intersection takes **`b`'s** order (the
+    mixin iterates the right operand). -/
+theorem C03_set_algebra_members_and_order {α : Type} [DecidableEq α] (l m : List α) (hl : l.Nodup) :
+    (∀ x, (x ∈ unionL l m ↔ x ∈ l ∨ x ∈ m) ∧ (x ∈ interL l m ↔ x ∈ l ∧ x ∈ m) ∧
+          (x ∈ diffL l m ↔ x ∈ l ∧ x ∉ m) ∧ (x ∈ xorL l m ↔ (x ∈ l ∧ x ∉ m) ∨ (x ∈ m ∧ x ∉ l))) ∧
+    ((unionL l m).Nodup ∧ (interL l m).Nodup ∧ (diffL l m).Nodup ∧ (xorL l m).Nodup) ∧
+    unionL l m = l ++ (dedup m).filter (fun x => x ∉ l) ∧
+    interL l m = (dedup m).filter (fun x => x ∈ l) ∧
+    diffL l m = l.filter (fun x => x ∉ m) ∧
+    xorL l m = l.filter (fun x => x ∉ m) ++ (dedup m).filter (fun x => x ∉ l) := by
+  refine ⟨fun x => ⟨mem_unionL, mem_interL, mem_diffL, mem_xorL⟩,
+    ⟨nodup_unionL l m, nodup_interL l m, nodup_diffL l m, nodup_xorL l m⟩, ?_, interL_eq l m, ?_, ?_⟩
+  · rw [unionL_eq, dedup_of_nodup hl]
+  · rw [diffL_eq, dedup_of_nodup hl]
+  · rw [xorL_eq, dedup_of_nodup hl]
+
+/-- The comparison operators between two AgentSets are the subset order on members and ignore the order of
+    the members: `<=` is inclusion, `<` strict inclusion, `>=` / `>` their mirror images, `==` holds exactly
+    when one set is a reordering of the other (so a shuffled or sorted copy equals its source), `isdisjoint`
+    exactly when no member is shared. -/
+theorem C03_comparisons_are_subset_order {α : Type} [DecidableEq α] (l m : List α) (hl : l.Nodup) (hm : m.Nodup) :
+    (leL l m = true ↔ l ⊆ m) ∧ (ltL l m = true ↔ l ⊆ m ∧ ¬ m ⊆ l) ∧
+    geL l m = leL m l ∧ gtL l m = ltL m l ∧
+    (eqL l m = true ↔ l.Perm m) ∧ (eqL l m = true ↔ leL l m = true ∧ leL m l = true) ∧
+    (disjointL l m = true ↔ ∀ x, x ∈ l → x ∉ m) := by
+  refine ⟨leL_iff hl, ltL_iff hl hm, rfl, rfl, eqL_iff hl hm, ?_, disjointL_iff l m⟩
+  rw [eqL_iff hl hm, leL_iff hl, leL_iff hm, List.perm_ext_iff_of_nodup hl hm]
+  exact ⟨fun h => ⟨fun x hx => (h x).mp hx, fun x hx => (h x).mpr hx⟩, fun h a => ⟨fun ha => h.1 ha, fun ha => h.2 ha⟩⟩
+
+/-- The in-place operators leave the set equal to what the copying operator returns — `a |= b` as `a | b`,
+    `a -= b` as `a - b`, `a ^= b` as `a ^ b`, member for member and in the same order — with one exception in
+    the order only: `a &= b` keeps `a`'s order where `a & b` takes `b`'s (same members).  `a -= a` and
+    `a ^= a` take the `it is self` branch (`clear()`), which is also what `a - a` and `a ^ a` give. -/
+theorem C03_inplace_operators_match_copying {α : Type} [DecidableEq α] (l m : List α) (hl : l.Nodup) :
+    iorL l m = unionL l m ∧ isubL l m false = diffL l m ∧ ixorL l m false = xorL l m ∧
+    iandL l m = l.filter (fun x => x ∈ m) ∧ (iandL l m).Perm (interL l m) ∧
+    (isubL l m true = [] ∧ ixorL l m true = [] ∧ diffL l l = [] ∧ xorL l l = []) := by
+  refine ⟨iorL_eq_unionL hl, isubL_eq_diffL hl m, ixorL_eq_xorL hl m, iandL_eq_filter hl m, ?_, ?_⟩
+  · rw [iandL_eq_filter hl m]
+    refine (List.perm_ext_iff_of_nodup (hl.sublist List.filter_sublist) (nodup_interL l m)).mpr (fun a => ?_)
+    simp [mem_interL]
+  · have hd : diffL l l = [] := by
+      rw [diffL_eq, List.filter_eq_nil_iff]
+      intro a ha; simpa [mem_dedup] using ha
+    refine ⟨by simp [isubL, clearL_eq_nil], by simp [ixorL, clearL_eq_nil], hd, ?_⟩
+    rw [xorL_eq]
+    have h1 : (dedup l).filter (fun x => x ∉ l) = [] := by
+      rw [List.filter_eq_nil_iff]; intro a ha; simpa [mem_dedup] using ha
+    rw [h1]; rfl
+
+/-- `index`, `count` and `reversed` read the same member list as iteration and `[]`: `index(a)` is the
+    position at which `[]` finds `a` (the first one; the only one in a set) and raises `ValueError` exactly for
+    a non-member; with `start` / `stop` it is the first such position inside the range (negative bounds count
+    from the end, as in slices) ; `count` is 1 for a member and 0 otherwise; `reversed` is the members last to
+    first. -/
+theorem C03_index_count_reversed_agree {α : Type} [DecidableEq α] (l : List α) (v : α) :
+    (indexL l v 0 none = none ↔ v ∉ l) ∧
+    (∀ i, indexL l v 0 none = some i ↔ l[i]? = some v ∧ ∀ j, j < i → l[j]? ≠ some v) ∧
+    (l.Nodup → ∀ i, indexL l v 0 none = some i ↔ l[i]? = some v) ∧
+    (∀ (start : Int) (stop : Option Int) (i : Nat),
+      let n : Int := l.length
+      let lo : Nat := (if start < 0 then max (n + start) 0 else start).toNat
+      indexL l v start stop = some i ↔
+        lo ≤ i ∧ l[i]? = some v ∧ (∀ j, lo ≤ j → j < i → l[j]? ≠ some v) ∧
+        ∀ s, stop = some s → (i : Int) < (if s < 0 then s + n else s)) ∧
+    (l.Nodup → countL l v = if v ∈ l then 1 else 0) ∧
+    reversedL l = l.reverse := by
+  have hrange : ∀ (start : Int) (stop : Option Int) (i : Nat),
+      let n : Int := l.length
+      let lo : Nat := (if start < 0 then max (n + start) 0 else start).toNat
+      indexL l v start stop = some i ↔
+        lo ≤ i ∧ l[i]? = some v ∧ (∀ j, lo ≤ j → j < i → l[j]? ≠ some v) ∧
+        ∀ s, stop = some s → (i : Int) < (if s < 0 then s + n else s) := by
+    intro start stop i n lo
+    show indexGo v (stop.map fun s => if s < 0 then s + n else s) (l.drop lo) lo = some i ↔ _
+    rw [indexGo_spec]
+    constructor
+    · rintro ⟨k, rfl, hk, hmin, hs⟩
+      refine ⟨by omega, by simpa [List.getElem?_drop] using hk, ?_, ?_⟩
+      · intro j hj1 hj2
+        have := hmin (j - lo) (by omega)
+        rw [List.getElem?_drop] at this
+        have e : lo + (j - lo) = j := by omega
+        rwa [e] at this
+      · intro s hs'; subst hs'; exact hs _ rfl
+    · rintro ⟨hlo, hk, hmin, hs⟩
+      refine ⟨i - lo, by omega, ?_, ?_, ?_⟩
+      · rw [List.getElem?_drop]
+        have e : lo + (i - lo) = i := by omega
+        rwa [e]
+      · intro k' hk'
+        rw [List.getElem?_drop]
+        exact hmin (lo + k') (by omega) (by omega)
+      · intro s hs'
+        cases stop with
+        | none => simp at hs'
+        | some s0 => simp at hs'; subst hs'; exact hs s0 rfl
+  have h0 : ∀ i, indexL l v 0 none = some i ↔ l[i]? = some v ∧ ∀ j, j < i → l[j]? ≠ some v := by
+    intro i
+    have := hrange 0 none i
+    simp only [Int.lt_irrefl, if_false, Int.toNat_zero, Nat.zero_le, true_and, reduceCtorEq, false_implies,
+      implies_true, and_true, true_implies] at this
+    exact this
+  refine ⟨?_, h0, ?_, hrange, ?_, rfl⟩
+  · constructor
+    · intro hnone hv
+      obtain ⟨i, hi⟩ := List.getElem?_of_mem hv
+      -- the first position holding v
+      have : ∃ i : Nat, l[i]? = some v ∧ ∀ j : Nat, j < i → l[j]? ≠ some v := by
+        induction i using Nat.strongRecOn with
+        | _ i ih =>
+          by_cases hmin : ∀ j, j < i → l[j]? ≠ some v
+          · exact ⟨i, hi, hmin⟩
+          · have ⟨j, hj⟩ : ∃ j : Nat, j < i ∧ l[j]? = some v := by
+              apply Classical.byContradiction
+              intro hne
+              exact hmin (fun j hj hv' => hne ⟨j, hj, hv'⟩)
+            exact ih j hj.1 hj.2
+      obtain ⟨i0, h1, h2⟩ := this
+      have := (h0 i0).mpr ⟨h1, h2⟩
+      rw [hnone] at this
+      cases this
+    · intro hv
+      cases h : indexL l v 0 none with
+      | none => rfl
+      | some i => exact absurd (List.mem_of_getElem? ((h0 i).mp h).1) hv
+  · intro hn i
+    rw [h0]
+    refine ⟨fun h => h.1, fun h => ⟨h, fun j hj hj' => ?_⟩⟩
+    have hi := (List.getElem?_eq_some_iff.mp h)
+    have hj2 := (List.getElem?_eq_some_iff.mp hj')
+    obtain ⟨hi1, hi2⟩ := hi
+    obtain ⟨hj1, hj2⟩ := hj2
+    have := (List.getElem_inj (h₀ := hj1) (h₁ := hi1) hn).mp (hj2.trans hi2.symm)
+    omega
+  · intro hn
+    unfold countL
+    exact hn.count
+
 /-! ## the store: ordered-set operations, in-place versus copy, histories -/
 
 /-- `add` of a member and `discard` of a non-member change nothing; `add` of a non-member appends it;
@@ -96,6 +240,62 @@ theorem C03_add_discard_remove (st : Store) (s : Nat) (a : Nat) (hs : s < st.set
   · simp only [add]; rw [get_set_self st s _ hs, addKey_of_not_mem h]
   · simp [remove, h]
 
+/-- On the store: an operator expression always builds a *new* AgentSet (by `_from_iterable`, i.e. with the
+    set's generator) and alters neither operand nor any other set, no attribute and not the generator's state;
+    an in-place operator touches the left operand only; `pop()` removes and returns the member `[0]` returns
+    (it is `discard` of that member), raises `KeyError` on an empty set; `clear()` empties the set and nothing else. -/
+theorem C03_operators_pop_clear_on_the_store (st : Store) (h : st.WF) (s : Nat) (hs : s < st.sets.length) :
+    (∀ op o, let r := setop st op s o
+      r.2 = st.sets.length ∧ r.1.get r.2 = op.eval (st.get s) (st.other o) ∧
+      (∀ j, j < st.sets.length → r.1.get j = st.get j) ∧ r.1.pop = st.pop ∧ r.1.rng = st.rng) ∧
+    (∀ op o, let st' := isetop st op s o
+      st'.get s = isetopL (st.get s) (st.other o) (decide (o = .set s)) op ∧
+      (∀ j, j ≠ s → st'.get j = st.get j) ∧ st'.pop = st.pop ∧ st'.rng = st.rng) ∧
+    (st.get s = [] → pop st s = .error .key) ∧
+    (∀ st' a, pop st s = .ok (st', a) →
+      item st s 0 = .ok a ∧ st' = discard st s a ∧ len st' s + 1 = len st s ∧ contains st' s a = false) ∧
+    (clear st s).get s = [] ∧ (∀ j, j ≠ s → (clear st s).get j = st.get j) := by
+  refine ⟨fun op o => ?_, fun op o => ⟨get_set_self st s _ hs, fun j hj => get_set_other st s j _ hj, rfl, rfl⟩,
+    fun he => by simp [pop, he, popL], ?_, ?_, fun j hj => get_set_other st s j _ hj⟩
+  · refine ⟨by simp [setop, Store.put], by simp [setop, Store.put, Store.get], fun j hj => ?_, rfl, rfl⟩
+    simp [setop, Store.put, Store.get, List.getElem?_append_left hj]
+  · intro st' a hp
+    unfold pop at hp
+    cases hl : st.get s with
+    | nil => simp [hl, popL] at hp
+    | cons b rest =>
+      simp only [hl, popL, Except.ok.injEq, Prod.mk.injEq] at hp
+      obtain ⟨rfl, rfl⟩ := hp
+      have hn := Store.get_nodup h s
+      rw [hl] at hn
+      refine ⟨by simp [item, pyIndex, hl], by simp [discard, hl], ?_, ?_⟩
+      · simp [len, get_set_self st s _ hs, hl]
+      · simp only [contains, get_set_self st s _ hs]
+        simpa using (List.nodup_cons.mp hn).1
+  · rw [clear, get_set_self st s _ hs, clearL_eq_nil]
+
+/-- A member that dies (removed from its model, no reference left in the program) is gone from **every** set
+    at once — the set it was first put in and every set derived from it — and nothing else changes: each set
+    keeps its other members in their order, no set gains a member, attributes and generator are untouched,
+    sets stay duplicate-free. -/
+theorem C03_dead_member_leaves_every_set (st : Store) (h : st.WF) (a : Nat) :
+    (kill st a).sets.length = st.sets.length ∧
+    (∀ s, (kill st a).get s = (st.get s).filter (· ≠ a)) ∧ (∀ s, a ∉ (kill st a).get s) ∧
+    (kill st a).WF ∧ (kill st a).pop = st.pop ∧ (kill st a).rng = st.rng := by
+  have hget : ∀ s, (kill st a).get s = (st.get s).filter (· ≠ a) := by
+    intro s
+    simp only [kill, Store.get, List.getElem?_map]
+    cases hs : st.sets[s]? with
+    | none => simp
+    | some l =>
+      have hn := h l (List.mem_of_getElem? hs)
+      simp only [Option.map_some, Option.getD_some]
+      rw [hn.erase_eq_filter]
+      apply List.filter_congr
+      intro x _
+      by_cases hx : x = a <;> simp [hx]
+  refine ⟨by simp [kill], hget, fun s => by rw [hget]; simp, applyOp_wf h (.kill a), rfl, rfl⟩
+
 /-- length, iteration, membership and indexing agree: all four read the one member list. -/
 theorem C03_len_iter_contains_getitem_agree (st : Store) (s : Nat) :
     len st s = (st.get s).length ∧ (∀ a, contains st s a = true ↔ a ∈ st.get s) ∧
@@ -109,8 +309,9 @@ theorem C03_len_iter_contains_getitem_agree (st : Store) (s : Nat) :
 
 /-- No history of set operations ever makes a set list a member twice: starting from sets without
     duplicates, after any sequence of `AgentSet(...)`, `select`, `shuffle`, `sort`, `groupby`, `set`, `add`,
-    `discard`, `remove` (in place or copying, on original or derived sets, raising or not) every set is
-    duplicate-free. -/
+    `discard`, `remove`, `|` `&` `-` `^` and their in-place forms (with sets or with plain iterables that repeat
+    agents), `pop`, `clear`, and deaths of members (in place or copying, on original or derived sets, raising or
+    not) every set is duplicate-free. -/
 theorem C03_no_duplicates_all_histories (st : Store) (h : st.WF) (ops : List SOp) :
     (ops.foldl applyOp st).WF := by
   induction ops generalizing st with
@@ -215,5 +416,14 @@ example : (select demo 0 none (some 0) (.count 2) false).1.get 1 = [0, 1] := by 
 example : (shuffle demo 0 false).1.get 1 = [0, 2, 4, 1, 3] ∧ (shuffle demo 0 false).1.get 0 = [0, 1, 2, 3, 4] := by decide
 example : (group demo 0 (.attr 0) false).toOption.map (·.2) = some [(2, [0, 2, 4]), (1, [1, 3])] := by decide
 example : sort demo 0 (.attr 1) true true = .error .attr ∧ remove demo 0 7 = .error .key := ⟨rfl, rfl⟩
+/-- `{0,1,2,3,4} & [4,4,2,9→absent,0]` takes the right operand's order; `&=` keeps the left one's -/
+example : interL [0, 1, 2, 3, 4] [4, 4, 2, 0] = [4, 2, 0] ∧ iandL [0, 1, 2, 3, 4] [4, 4, 2, 0] = [0, 2, 4] ∧
+    unionL [0, 1, 2] [4, 4, 1, 3] = [0, 1, 2, 4, 3] ∧ xorL [0, 1, 2] [4, 4, 1, 3] = [0, 2, 4, 3] ∧
+    ixorL [0, 1, 2] [4, 4, 1, 3] false = [0, 2, 4, 3] := by decide
+example : eqL [0, 1, 2] [2, 0, 1] = true ∧ ltL [0, 1] [2, 0, 1] = true ∧ leL [0, 3] [2, 0, 1] = false := by decide
+example : indexL [3, 1, 2, 5, 0] 2 (-3) none = some 2 ∧ indexL [3, 1, 2, 5, 0] 2 0 (some (-3)) = none := by decide
+example : (kill (select demo 0 none (some 0) .inf false).1 2).sets = [[0, 1, 3, 4], [0, 1, 4]] := by decide
+example : (setop demo .xor 0 (.list [4, 4, 7])).1.get 1 = [0, 1, 2, 3, 7] ∧
+    (pop demo 0).toOption.map (·.2) = some 0 := by decide
 
 end Mesa.ASet
